@@ -5,6 +5,63 @@ from checks.cnf_common import run_plan, QUAL
 from checks.wp_common import run_wp
 
 
+def sequence_checks(ck, tier):
+    """Two population counts over the SAME inputs in ONE formula (what a design with several counting requests over one variable list produces):
+    every ordered pair of saturation points; each result must still be the saturating sum of the inputs and the extension unique.  Native SAT,
+    all input assignments (bounded stand-in: the per-shape proofs above build each circuit in a fresh formula)."""
+    import itertools
+    import time
+    from pyvc import native_cnf as N
+    from sweetpea._internal.core.cnf import CNF, Var
+    from contracts.cnf import _pc_result_len
+    t0 = time.time()
+    bad = None
+    cases = 0
+    ns = (3, 5, 6) if tier == "quick" else (2, 3, 4, 5, 6, 7, 8)
+    sats = range(0, 6)
+    for n in ns:
+        ids = list(range(1, n + 1))
+        for s1, s2 in itertools.product(sats, repeat=2):
+            cnf = CNF.from_fresh(n)
+            xs = [Var(i) for i in ids]
+            try:
+                r1 = [int(v) for v in cnf.pop_count(list(xs), s1)]
+                r2 = [int(v) for v in cnf.pop_count(list(xs), s2)]
+            except Exception as e:
+                bad = bad or ((n, s1, s2), f"raised {e!r}")
+                continue
+            clauses = [[int(v) for v in cl] for cl in cnf._vals]
+            aux = list(range(n + 1, cnf._num_vars + 1))
+            cases += 1
+            for (res, sat, which) in ((r1, s1, "first"), (r2, s2, "second")):
+                if len(res) != _pc_result_len((n, sat)) and bad is None:
+                    bad = ((n, s1, s2), f"{which} result has {len(res)} bits, the circuit for saturate_at={sat} has {_pc_result_len((n, sat))}")
+            for bits in itertools.product([False, True], repeat=n):
+                if bad:
+                    break
+                ms = N.models_under(clauses, [v if b_ else -v for v, b_ in zip(ids, bits)], aux, limit=2)
+                cnt = sum(bits)
+                if len(ms) != 1:
+                    bad = ((n, s1, s2), f"inputs {bits}: {len(ms)} satisfying extension(s), expected exactly one")
+                    break
+                m = dict(ms[0])
+                m.update(zip(ids, bits))
+                for (res, sat, which) in ((r1, s1, "first"), (r2, s2, "second")):
+                    val = sum((1 << (len(res) - 1 - i)) for i, v in enumerate(res) if (m[abs(v)] if v > 0 else not m[abs(v)]))
+                    exact = sat == 0 or len(res) < sat or n == 1
+                    ok = (val == cnt) if exact or cnt < (1 << (sat - 1)) else (val >= (1 << (sat - 1)))
+                    if not ok:
+                        bad = ((n, s1, s2), f"inputs {bits} (count {cnt}): the {which} count (saturate_at={sat}) reads {val} on bits {res}")
+                        break
+            ck.count(("pop_count-sequence", n, s1, s2))
+    ck.oblig("C12.pop_count.sequence(all pairs)", "E", "passed" if bad is None else "failed", "pycryptosat", time.time() - t0,
+             f"{cases} ordered pairs of pop_count calls over one variable list in one formula, n in {list(ns)}, saturate_at in 0..5, all input assignments")
+    if bad is not None:
+        (n, s1, s2), why = bad
+        ck.violation("C12.pop_count.sequence", f"sequence:{n}:{s1}:{s2}", f"pop_count(xs, {s1}) then pop_count(xs, {s2}) on one formula over {n} variables: {why}",
+                     dict(function=QUAL + "pop_count", kind="sequence", n=n, saturate_at=[s1, s2], failure=why))
+
+
 def main(tier):
     ck = Check("C12", tier, "other",
                "Contracts on the real CNF builder methods, checked by concolic execution of the unmodified code with symbolic "
@@ -34,6 +91,7 @@ def main(tier):
     run_plan(ck, plan, budget_ms(tier), prop_prefix="C12.")
     # ripple_carry / ripple_saturate for EVERY width: pyvc.wp over the real source with full_adder by contract (loop invariant over the partial sums)
     run_wp(ck, ["ripple_carry", "ripple_saturate"], budget_ms(tier), prefix="C12.wp.")
+    sequence_checks(ck, tier)
     ck.trust("z3 4.x / cvc5 as SMT back ends", "CPython semantics of the executed builder code (it is the code that runs)",
              "pycryptosat for native replay")
     ck.assume("math.ceil(math.log(n, 2)) evaluated concretely per shape (n bounded by the shape bound)",
